@@ -40,10 +40,10 @@ Proof.
 Qed.
 
 (* options: canonical integer text is not affected by the text conversion *)
-Lemma option_canon strict e p n : read_option strict e p (TCanon n) = read_tok p (TCanon n).
+Lemma option_canon strict nm e p n : read_option strict nm e p (TCanon n) = read_tok p (TCanon n).
 Proof. unfold read_option. cbn [is_canon]. destruct (read_tok p (TCanon n)); reflexivity. Qed.
 
-Lemma option_lenient p t : read_option false None p t = read_tok p t.
+Lemma option_lenient nm p t : read_option false nm None p t = read_tok p t.
 Proof. unfold read_option. destruct (read_tok p t), (is_canon t); reflexivity. Qed.
 
 Lemma in_runs_members n rs : in_runs n rs = true <-> In n (runs_members rs).
@@ -65,8 +65,8 @@ Qed.
 
 (* whenever an option row passes option_ok: every integer of the AllowableRange is a member of the enum, so the
    conversion to the enum (from_input_string / from_int) is total on accepted values *)
-Lemma option_conversion_total t i strict e ms :
-  option_ok t (i, strict, e, ms) = true ->
+Lemma option_conversion_total t i strict nm e ms :
+  option_ok t (i, strict, nm, e, ms) = true ->
   let p := nth i t dummy_param in
   forall n, in_runs n (p_range p) = true -> memZb n ms = true.
 Proof.
@@ -74,10 +74,10 @@ Proof.
   apply B. apply in_runs_members. exact R.
 Qed.
 
-Lemma option_accept_is_member t i strict e ms n w :
-  option_ok t (i, strict, e, ms) = true -> read_tok (nth i t dummy_param) (TCanon n) = TAccept w -> memZb n ms = true.
+Lemma option_accept_is_member t i strict nm e ms n w :
+  option_ok t (i, strict, nm, e, ms) = true -> read_tok (nth i t dummy_param) (TCanon n) = TAccept w -> memZb n ms = true.
 Proof.
-  intros H Hr. apply (option_conversion_total t i strict e ms H n).
+  intros H Hr. apply (option_conversion_total t i strict nm e ms H n).
   cbn in H. apply andb_true_iff in H. destruct H as [Hk _].
   assert (K : p_kind (nth i t dummy_param) = KInt) by (destruct (p_kind (nth i t dummy_param)); try discriminate; reflexivity).
   unfold read_tok in Hr. cbn in Hr. destruct (read_param (nth i t dummy_param) (inject_Z n)) eqn:Rp; try discriminate.
@@ -88,19 +88,28 @@ Qed.
    then dies in from_input_string without the parameter's name *)
 Definition w_econ_model : param :=
   mkParam "Economics" "Economic Model" KInt (Some (2#1)) (Some (2#1)) 0 0 [(1, 4)%Z] "" "" "NONE" true "integer" "2/1".
+Definition w_configuration : param :=
+  mkParam "WellBores" "Well Geometry Configuration" KInt (Some (3#1)) (Some (3#1)) 0 0 [(1, 5)%Z] "" "" "NONE" true "integer" "3/1".
 
 Lemma option_float_form_refuted :
-  exists p v, in_domain p v = true /\ read_tok p (TNum v) = TAccept v /\ read_option true None p (TNum v) = TErrAnon /\
-              tspec_option_ok p (TNum v) (read_option true None p (TNum v)) = false.
-Proof. exists w_econ_model, (4#1). repeat split; vm_compute; reflexivity. Qed.
+  exists p v, in_domain p v = true /\ read_tok p (TNum v) = TAccept v /\ read_option true false None p (TNum v) = TErrAnon /\
+              tspec_option_ok p (TNum v) (read_option true false None p (TNum v)) = false.
+Proof. exists w_configuration, (5#1). repeat split; vm_compute; reflexivity. Qed.
+
+(* when the enum label contains the parameter's name the same input is at least rejected by name *)
+Lemma option_strict_named p t :
+  tok_num t <> None -> is_canon t = false ->
+  (exists v, read_tok p t = TAccept v) \/ read_tok p t = TUnchanged ->
+  read_option true true None p t = TRejectNamed (p_name p).
+Proof. intros _ Hc [[v H]|H]; unfold read_option; rewrite H, Hc; reflexivity. Qed.
 
 (* refuted: Fracture Shape written "2.0": member 2 is accepted by ReadParameter and the else branch stores member 4 *)
 Definition w_fracture_shape : param :=
   mkParam "Reservoir" "Fracture Shape" KInt (Some (1#1)) (Some (1#1)) 0 0 [(1, 4)%Z] "" "" "NONE" false "integer" "1/1".
 
 Lemma option_else_refuted :
-  exists p v m, in_domain p v = true /\ read_option false (Some m) p (TNum v) = TAccept (inject_Z m) /\ ~ inject_Z m == v /\
-                tspec_ok p (TNum v) (read_option false (Some m) p (TNum v)) = false.
+  exists p v m, in_domain p v = true /\ read_option false false (Some m) p (TNum v) = TAccept (inject_Z m) /\ ~ inject_Z m == v /\
+                tspec_ok p (TNum v) (read_option false false (Some m) p (TNum v)) = false.
 Proof.
   exists w_fracture_shape, (2#1), 4%Z. repeat split; try (vm_compute; reflexivity).
   intros H. vm_compute in H. discriminate.
